@@ -75,6 +75,42 @@ def cli_cases(ctx):
     return viol, samples, runs
 
 
+MODE_SPEC = {'terminals': {'D2': [['12', '0.5'], ['99', '0.25'], ['00', '0.25']], 'A3': [['abc', '0.5'], ['xyz', '0.5']],
+                           'C3': [['LLL', '0.75'], ['ULL', '0.25']], 'O1': [['!', '0.5'], ['#', '0.5']]},
+             'grammar': [['A3D2', '0.5'], ['D2O1', '0.25'], ['A3', '0.25']], 'omen_prob': [], 'prince': [], 'mode': 'dyadic', 'encoding': 'utf-8'}
+
+
+def mode_option_case(args, name='modeopt'):
+    """the other generation modes with every option that can stand next to them: stdout must be exactly N lines, each a word of the
+    ruleset (nothing but guesses reaches stdout whatever the option combination)"""
+    d = common.install_ruleset(MODE_SPEC, name)
+    pcfg = common.load_grammar(d)
+    lang = set(in_process_stream(pcfg))
+    n = int(args[args.index('-n') + 1])
+    out, err, rc = common.run_cli('pcfg_guesser.py', ['-r', name] + args, stdin='pipe-open')
+    got = out.decode('utf-8', errors='replace').split('\n')
+    if got and got[-1] == '':
+        got.pop()
+    bad = [l for l in got if l not in lang]
+    if len(got) != n or bad:
+        return [{'property': 'C09', 'kind': 'stdout-not-guess-stream', 'lines': len(got), 'limit': n, 'not_guesses': bad[:3],
+                 'witness': {'mode_args': args}}]
+    return []
+
+
+def mode_option_cases(ctx):
+    viol, runs = [], 0
+    combos = [['-m', 'random_walk', '-n', '6', '--load'], ['-m', 'honeywords', '-n', '5', '--load', '-s', 'other'],
+              ['-m', 'random_walk', '-n', '4', '--all_lower', '--skip_brute']]
+    if not ctx.quick:
+        combos += [['-m', 'honeywords', '-n', '7', '-d'], ['-m', 'random_walk', '-n', '3', '-d', '--load', '--skip_brute'],
+                   ['-m', 'honeywords', '-n', '1', '--load', '--all_lower']]
+    for args in combos:
+        viol += mode_option_case(args)
+        runs += 1
+    return viol, runs
+
+
 def resumed_limit_cases(ctx):
     """--limit on a resumed session: a real session is quit after some guesses (its .sav then carries the counters of the
     first session), then resumed with limit N: exactly the first N lines of the unlimited resumed run"""
@@ -144,6 +180,10 @@ def run(ctx):
     r['samples'] = (r['samples'][:3] + samples)[:6]
     r['evaluations'] += runs
     r['extra']['cli_runs'] = runs
+    v3, runs3 = mode_option_cases(ctx)
+    r['violations'] += v3
+    r['evaluations'] += runs3
+    r['extra']['mode_option_runs'] = runs3
     r['rule'] += '; plus subprocess runs of pcfg_guesser.py in the snapshot (stdin = open pipe) whose stdout must equal, byte for byte, ' \
                  'the guess stream computed in-process, unlimited and with -n N for N around group boundaries and at random; plus real ' \
                  'sessions quit after some guesses and resumed (--load) with limit N around the first session\'s guess count'
@@ -152,6 +192,8 @@ def run(ctx):
 
 def replay(ctx, payload):
     w = payload.get('violation', {}).get('witness') or {}
+    if 'mode_args' in w:
+        return mode_option_case(w['mode_args'], 'replaymode')
     if 'cli' in w:
         name = 'replay'
         d = common.install_ruleset(w['spec'], name)
